@@ -150,6 +150,8 @@ def run_one(it):
         guard = 0
         while guard < 200000:
             guard += 1
+            if done["v"] and it.get("then") == "close":
+                break                  # the application closes at once; what is in flight is read afterwards, until EOF
             if it["pace"] == "immediate":
                 s.settle()
                 stream += peer.read()
@@ -172,9 +174,8 @@ def run_one(it):
                     if nd is None:
                         break
                     s.block(("pace",), max(0.0, nd - s.now))
-        rec["received"] = runs_of(bytes(stream), it["sizes"])
-        rec["stream_len"] = len(stream)
         rec["done"] = done["v"]
+        rec["in_flight_at_close"] = len(peer.rx)
         dn = {"v": False}
 
         def dis():
@@ -185,6 +186,11 @@ def run_one(it):
         t2.start()
         s.run_until(lambda: dn["v"], max_dt=30)
         rec["disable_returned"] = dn["v"]
+        while peer.rx:                 # the raw peer reads until EOF
+            stream += peer.read(rng.choice([1, 10, 1000, 1 << 20]))
+        rec["received"] = runs_of(bytes(stream), it["sizes"])
+        rec["stream_len"] = len(stream)
+        rec["peer_saw_reset"] = peer.rst
 
     s = simrt.run(main, seed=it["seed"], policy=it["policy"], switch_prob=0.2, max_vtime=1e5, wall_timeout=300,
                   line_funcs=[tc.TcpConnection._start_receiver, tc.TcpConnection.disconnect], line_cost=1e-3)
@@ -200,19 +206,23 @@ def run_one(it):
 def run(ctx: Ctx):
     wd = workdir(PID)
 
-    def cfg(ign, k, sz):
-        return (f"SPECIFICATION Spec\nCONSTANTS ShortWriteIgnored = {ign}\n K = {k}\n SZ = {sz}\nINVARIANT AcceptedMeansOnStream\n"
+    def cfg(ign, k, sz, abort="FALSE"):
+        return (f"SPECIFICATION Spec\nCONSTANTS ShortWriteIgnored = {ign}\n AbortiveClose = {abort}\n K = {k}\n SZ = {sz}\nINVARIANT AcceptedMeansOnStream\n"
                 "INVARIANT InOrderNoDup\nPROPERTY EverythingArrives\n")
 
     for k, sz in ((3, 1), (2, 3), (4, 1)) if not ctx.quick else ((3, 1), (2, 3)):
         r = tlc.run("TcpSend", cfg_text=cfg("FALSE", k, sz), workdir=wd, what=f"send_k{k}_s{sz}", timeout=900)
         tlc.require_ok(r, "TcpSend")
-        tlc.require_covered(r, ["Send", "Drain", "Reset", "SendFails"])
+        tlc.require_covered(r, ["Send", "Drain", "Reset", "SendFails", "Close"])
         ctx.add_tlc(r, f"send loop on remaining bytes, K={k}, sizes #{sz}: all short-write / drain / reset interleavings")
     rw = tlc.run("TcpSend", cfg_text=cfg("TRUE", 3, 1), workdir=wd, what="send_ignored", timeout=900, expect_error=True)
     ctx.add_tlc(rw, "regression witness: return value of send ignored -> TLC refutes AcceptedMeansOnStream")
     if rw.error_kind != "invariant":
         raise Machinery("TcpSend regression witness no longer fails")
+    rw2 = tlc.run("TcpSend", cfg_text=cfg("FALSE", 3, 1, "TRUE"), workdir=wd, what="abortive_close", timeout=900, expect_error=True)
+    ctx.add_tlc(rw2, "witness: abortive close after the last send -> TLC refutes AcceptedMeansOnStream")
+    if rw2.error_kind != "invariant":
+        raise Machinery("TcpSend abortive-close witness no longer fails")
     rng = random.Random(ctx.seed + 10)
     items = []
     tid = 0
@@ -233,10 +243,13 @@ def run(ctx: Ctx):
                     for short in ("none", "half", "rand"):
                         if ctx.quick and short == "half" and pace != "immediate":
                             continue
-                        tid += 1
-                        items.append({"id": tid, "side": side, "cap": cap, "sizes": [max(1, x) for x in sizes], "pace": pace, "short": short,
-                                      "via": "protocol_split" if max(sizes) > 1024 * 1024 else "send_data",
-                                      "seed": rng.randrange(1 << 30), "policy": rng.choice(["fifo", "random"])})
+                        for then in ("drain", "close"):
+                            if then == "close" and (short == "half" or (ctx.quick and pace == "byte" and cap > 7)):
+                                continue
+                            tid += 1
+                            items.append({"id": tid, "side": side, "cap": cap, "sizes": [max(1, x) for x in sizes], "pace": pace, "short": short,
+                                          "via": "protocol_split" if max(sizes) > 1024 * 1024 else "send_data", "then": then,
+                                          "seed": rng.randrange(1 << 30), "policy": rng.choice(["fifo", "random"])})
     recs = [r_ for batch in pmap(run_batch, chunks(items, 28)) for r_ in batch]
     for r_ in recs:
         if r_.get("errors") and "Machinery" in str(r_["errors"]):
@@ -250,7 +263,8 @@ def run(ctx: Ctx):
         raise Machinery(f"judge: {len(verd)} verdicts for {len(recs)}")
     ctx.traces += len(recs)
     ctx.evaluations += len(recs)
-    ctx.nontrivial += len({(r_["side"], r_["cap"], tuple(r_["sizes"]), r_["pace"], r_["short"]) for r_ in recs})
+    ctx.nontrivial += len({(r_["side"], r_["cap"], tuple(r_["sizes"]), r_["pace"], r_["short"], r_.get("then")) for r_ in recs})
+    ctx.extra["closed_with_bytes_in_flight"] = sum(1 for r_ in recs if r_.get("then") == "close" and r_.get("in_flight_at_close", 0) > 0)
     for r_ in recs:
         v = verd[r_["id"]]
         if r_["id"] in (3, 40):
@@ -263,14 +277,16 @@ def run(ctx: Ctx):
         elif v["clause"] != "ok":
             ctx.violation({"check": "tcp", "clause": v["clause"], "side": r_["side"], "cap": r_["cap"], "sizes": r_["sizes"], "pace": r_["pace"],
                            "short": r_["short"], "exceeds_buffer": big, "sends": r_["sends"], "received_runs": r_["received"][:8],
-                           "stream_len": r_.get("stream_len"),
-                           "what": f"{r_['side']} cap={r_['cap']} sizes={r_['sizes']} pace={r_['pace']} short={r_['short']}: {v['clause']} "
+                           "stream_len": r_.get("stream_len"), "then": r_.get("then"), "in_flight_at_close": r_.get("in_flight_at_close"),
+                           "peer_saw_reset": r_.get("peer_saw_reset"),
+                           "what": f"{r_['side']} cap={r_['cap']} sizes={r_['sizes']} pace={r_['pace']} short={r_['short']} then={r_.get('then')}: {v['clause']} "
                                    f"(peer read {r_.get('stream_len')} of {sum(r_['sizes'])} bytes)"})
         elif not r_.get("disable_returned", True):
             ctx.violation({"check": "tcp", "clause": "disable-did-not-return", "side": r_["side"], "cap": r_["cap"],
                            "what": f"{r_['side']}: disable() after the transfer did not return"})
     ctx.rule = ("scenarios = {server, client} x buffer capacity {1, 7, 4 KiB, 64 KiB} x message sizes {1, cap-1, cap, cap+1, 3*cap+2, "
-                "1 MiB +-1, 3 MiB} x reader pacing {immediate, delayed, small reads} x short-write policy {none, half, random}; "
+                "1 MiB +-1, 3 MiB} x reader pacing {immediate, delayed, small reads} x short-write policy {none, half, random} x "
+                "{peer drains while the connection stays up, disable() right after the last send and the peer reads until EOF}; "
                 "non-trivial = distinct scenarios")
     ctx.assumptions += ["kernel TCP behaviour is the simulated socket layer (non-blocking send accepts 1..free bytes or raises EWOULDBLOCK)"]
     return ctx.finish()
